@@ -3,6 +3,7 @@ rig.machine_control.regions (compress_flood_fill_regions, RegionCoreTree, get_re
 an independent oracle that expands every emitted (region, core mask) pair into the cores it selects."""
 import json
 import os
+import time
 
 import lib
 from lib import zlit, vlist
@@ -12,7 +13,12 @@ UNITS = ["GenRegions"]
 
 HEADER = ("From Coq Require Import ZArith List. Import ListNotations. Open Scope Z_scope.\n"
           "Require Import Rig.Generated.GenRegions Rig.Model.Base Rig.Model.Regions.\n"
-          "Definition dec (c : Z) : core := (c / 8192, (c / 32) mod 256, c mod 32).\n")
+          # insertion sequences are written as one hexadecimal number, 6 digits per core (x, y, p), after a
+          # leading 1 (parsing a list of tens of thousands of decimal literals dominates the run otherwise)
+          "Definition unpack_step (s : Z * list core) : Z * list core :=\n"
+          "  let z := fst s in (Z.shiftr z 24, (Z.land (Z.shiftr z 16) 255, Z.land (Z.shiftr z 8) 255, Z.land z 255) :: snd s).\n"
+          "Definition unpack (n z : Z) : list core :=\n"
+          "  match n with Zpos p => snd (Pos.iter unpack_step (z, []) p) | _ => [] end.\n")
 
 
 # ------------------------------------------------------------------ independent oracle
@@ -91,6 +97,60 @@ def oracle_chip(x, y, w):
     if sel != [(x, y)]:
         return "get_region_for_chip(%d, %d) = %#x selects %r" % (x, y, w, sel[:6])
     return None
+
+
+# ------------------------------------------------------------------ shrinking a failing target set
+def verdict(case, out):
+    return oracle_compress({(t[0], t[1]): set(t[2]) for t in case["targets"]}, out)
+
+
+def shrink(chk, case, key, rounds=14):
+    """Greedy delta-debugging of a failing compress case: drop chunks of chips, then single cores, as long
+    as the independent oracle still reports the same kind of failure on the implementation's output."""
+    cur = [[t[0], t[1], list(t[2])] for t in case["targets"]]
+    out = None
+
+    def attempt(cands):
+        if not cands:
+            return None
+        res = chk.impl("impl_c12.py", [dict(case, targets=c) for c in cands], timeout=600)
+        best = None
+        for c, o in zip(cands, res):
+            w = verdict(dict(targets=c), o)
+            if w and w[0] == key and (best is None or len(c) < len(best[0])):
+                best = (c, o, w)
+        return best
+    for _ in range(rounds):
+        n = len(cur)
+        if n <= 1:
+            break
+        cands = []
+        for k in (2, 4, 8, 16, 32):
+            if k > n:
+                break
+            size = (n + k - 1) // k
+            chunks = [cur[i:i + size] for i in range(0, n, size)]
+            cands += chunks + [sum(chunks[:i] + chunks[i + 1:], []) for i in range(len(chunks))]
+        if n <= 40:
+            cands += [cur[:i] + cur[i + 1:] for i in range(n)]
+        cands = [c for c in cands if 0 < len(c) < n][:160]
+        best = attempt(cands)
+        if best is None:
+            break
+        cur, out = best[0], best[1]
+    for _ in range(8):
+        cands = []
+        for i, t in enumerate(cur):
+            for p in sorted(set(t[2])):
+                rest = [q for q in t[2] if q != p]
+                cands.append(cur[:i] + ([[t[0], t[1], rest]] if rest else []) + cur[i + 1:])
+        best = attempt([c for c in cands if c][:300])
+        if best is None:
+            break
+        cur, out = best[0], best[1]
+    if out is None:
+        return None
+    return dict(case, targets=cur, tags=case.get("tags", []) + ["shrunk"]), out
 
 
 # ------------------------------------------------------------------ generator
@@ -236,19 +296,27 @@ def gen_tree_case(rng):
     return dict(mode="tree", level=level, adds=adds)
 
 
+def expand(case):
+    """A case given by rectangles [x0, y0, w, h, cores] (kept in replays of very large cases) -> targets."""
+    if "rects" in case:
+        t = {}
+        for x0, y0, w, h, cores in case["rects"]:
+            for x in range(x0, x0 + w):
+                for y in range(y0, y0 + h):
+                    t.setdefault((x, y), []).extend(cores)
+        case = dict(case, targets=[[x, y, ps] for (x, y), ps in t.items()])
+    return case
+
+
 # ------------------------------------------------------------------ Coq literals
-def enc(x, y, p):
-    return (x * 256 + y) * 32 + p
-
-
 def coq_cores(order, valid):
     if valid:
-        return "(map dec [%s])" % "; ".join(str(enc(x, y, p)) for x, y, p in order)
+        return "(unpack %d 0x1%s)" % (len(order), "".join("%02x%02x%02x" % (x, y, p) for x, y, p in order))
     return vlist("(%s, %s, %s)" % (zlit(x), zlit(y), zlit(p)) for x, y, p in order)
 
 
 def in_space(order):
-    return all(0 <= x < 256 and 0 <= y < 256 and 0 <= p < 32 for x, y, p in order)
+    return all(0 <= x < 256 and 0 <= y < 256 and 0 <= p < 256 for x, y, p in order)
 
 
 def canon_model(v):
@@ -274,14 +342,18 @@ def run(chk, args):
                         "256 x 256 x 18 core space (outside it add_core raises ValueError, which the model mirrors)",
                         "the meaning of a region word is the documented one (block corner / level / 16 sub-block "
                         "bits), as SC&MP evaluates it; SC&MP itself is not modelled"]
+    t0 = time.time()
+    timing = {}
     chk.regenerate(UNITS)
     chk.prove()
+    timing["regenerate+prove"] = round(time.time() - t0, 1)
     rng = chk.rng
     thorough = chk.tier == "thorough"
     if args.replay:
         rep = json.load(open(args.replay))
         items = rep.get("failures", []) + rep.get("no_longer_checks", [])
-        cases = [f["replay"]["case"] for f in items if "case" in f.get("replay", {})]
+        cases = [expand(f["replay"]["case"]) for f in items if "case" in f.get("replay", {})]
+        cases = [c for c in cases if c.get("mode") != "compress" or isinstance(c.get("targets"), list)]
     else:
         n = 1400 if not thorough else 40000
         cases = []
@@ -293,14 +365,14 @@ def run(chk, args):
             else:
                 cases.append(gen_case(rng, i, chk.tier))
         # a whole machine for one core, and the whole machine but one chip for another
-        t = [[x, y, [7]] for x in range(256) for y in range(256)]
-        cases.append(dict(mode="compress", targets=t, container="set", tags=["full256"], order="sorted", valid=True))
+        cases.append(expand(dict(mode="compress", rects=[[0, 0, 256, 256, [7]]], container="set", tags=["full256"],
+                                 order="sorted", valid=True)))
         if thorough:
-            hole = (rng.randrange(256), rng.randrange(256))
-            t = [[x, y, [7] if (x, y) == hole else [7, 9]] for x in range(256) for y in range(256)]
-            rng.shuffle(t)
-            cases.append(dict(mode="compress", targets=t, container="list", tags=["full256", "nearly-full-other-core"],
-                              order="shuffled", valid=True))
+            hx, hy = rng.randrange(256), rng.randrange(256)
+            cases.append(expand(dict(mode="compress", container="list", tags=["full256", "nearly-full-other-core"],
+                                     rects=[[0, 0, 256, 256, [7]], [0, 0, hx, 256, [9]], [hx + 1, 0, 255 - hx, 256, [9]],
+                                            [hx, 0, 1, hy, [9]], [hx, hy + 1, 1, 255 - hy, [9]]],
+                                     order="sorted", valid=True)))
     corpus = os.path.join(lib.VERIF, "corpus", "C12.json")
     if os.path.exists(corpus):
         cases = json.load(open(corpus)) + cases
@@ -326,13 +398,17 @@ def run(chk, args):
         where.append((k, len(chunks[k])))
         chunks[k].append(c)
         sizes[k] += 50 + sum(len(t[2]) for t in c.get("targets", [])) + len(c.get("adds", [])) + len(c.get("chips", [])) // 4
+    t1 = time.time()
     res = chk.impl_parallel("impl_c12.py", chunks, timeout=2400)
+    timing["implementation"] = round(time.time() - t1, 1)
     outs = [res[k][j] for k, j in where]
     chip_outs = outs[len(cases):]
     outs = outs[:len(cases)]
 
     # ---------------- oracle on every implementation output
+    t2 = time.time()
     nfail = 0
+    failing = []
     for c, o in zip(cases, outs):
         if o[0] == "skipped":
             continue
@@ -355,12 +431,31 @@ def run(chk, args):
                 why = oracle_compress(targets, o)
                 if why and nfail < 20:
                     nfail += 1
-                    small = c if ncores <= 600 else dict(c, targets="(%d chips; regenerate with the same seed)" % len(c["targets"]))
-                    chk.fail_input(why[0], why[1], dict(case=small, observed=o if ncores <= 600 else [o[0]] + o[2:]))
+                    failing.append((c, o, why, ncores))
         else:
             chk.count("tree-level:%d" % c["level"])
             chk.count("outcome:" + o[0])
             chk.note_case(c, nontrivial=(o[0] == "ok" and len(o[2]) >= 2))
+    # report the failing inputs, the first of each kind shrunk to a small target set
+    shrunk_keys = set()
+    for c, o, why, ncores in sorted(failing, key=lambda f: f[3]):
+        rep_case, rep_out, rep_why = c, o, why
+        if why[0] not in shrunk_keys and len(shrunk_keys) < 4 and o[0] != "hang":
+            shrunk_keys.add(why[0])
+            try:
+                sh = shrink(chk, c, why[0])
+            except Exception:
+                sh = None
+            if sh:
+                rep_case, rep_out = sh
+                rep_why = verdict(rep_case, rep_out) or why
+        if sum(len(t[2]) for t in rep_case["targets"]) > 5000:
+            if "rects" in rep_case:
+                rep_case = {k: v for k, v in rep_case.items() if k != "targets"}
+            else:
+                rep_case = dict(rep_case, targets="(%d chips; the same seed regenerates the case)" % len(rep_case["targets"]))
+            rep_out = [rep_out[0]] + rep_out[2:]
+        chk.fail_input(rep_why[0], rep_why[1], dict(case=rep_case, observed=rep_out))
     nchips = 0
     for cc, o in zip(chip_cases, chip_outs):
         if o[0] != "ok":
@@ -381,12 +476,17 @@ def run(chk, args):
     if trees:
         chk.sample(dict(case=cases[trees[0]], implementation=outs[trees[0]]))
 
+    timing["oracle"] = round(time.time() - t2, 1)
+    t3 = time.time()
     # ---------------- model, evaluated in Coq on the same insertion sequences
     if chk.model_ok:
         try:
             exprs, idx = [], []
             for i, (c, o) in enumerate(zip(cases, outs)):
                 if o[0] in ("skipped", "hang"):
+                    continue
+                if not thorough and c["mode"] == "compress" and len(o[1] if o[0] == "ok" else o[2]) > 20000:
+                    chk.count("model evaluation left to the thorough tier (> 20000 cores)")
                     continue
                 if c["mode"] == "compress":
                     order = o[1] if o[0] == "ok" else o[2]
@@ -411,9 +511,10 @@ def run(chk, args):
                     shown = (m, o)
                 if not same and bad < 3:
                     bad += 1
-                    small = c if len(json.dumps(c)) < 20000 else dict(c, targets="(large; same seed regenerates it)")
+                    small = (c if len(json.dumps(c)) < 60000 else {k: v for k, v in c.items() if k != "targets"} if "rects" in c
+                             else dict(c, targets="(large; same seed regenerates it)"))
                     chk.disagree("%s: model %r, implementation %r" % (c["mode"], shown[0], shown[1]),
-                                 dict(case=small, observed=o if len(json.dumps(o)) < 20000 else o[0]))
+                                 dict(case=small, observed=o if len(json.dumps(o)) < 60000 else o[0]))
             if not bad:
                 chk.oblige("correspondence:compress/RegionCoreTree (%d cases, exact list equality incl. order, "
                            "add_core return values, error class)" % len(idx), True)
@@ -434,6 +535,8 @@ def run(chk, args):
                        "generated default is %r" % (dv,))
         except RuntimeError as e:
             chk.oblige("correspondence:model-evaluates", False, str(e))
+    timing["model-in-coq"] = round(time.time() - t3, 1)
+    chk.coverage["timing_s"] = timing
     chk.coverage["rule"] = (
         "compress cases: unions of 1-3 shapes (sparse chips in a 4/16/64/256 area; corner chips; neighbouring chips "
         "with different core sets across 4/16/64 boundaries; 4x4, 16x16, 64x64 blocks full for 1-3 cores and nearly "
